@@ -17,6 +17,8 @@ import (
 
 	"github.com/tikv/client-go/v2/testutils"
 	"github.com/tikv/client-go/v2/tikv"
+	"github.com/tikv/client-go/v2/util/codec"
+	pd "github.com/tikv/pd/client"
 	"k8s.io/klog/v2"
 
 	"github.com/kubewharf/kubebrain/pkg/backend"
@@ -70,6 +72,7 @@ type Engine struct {
 	Kind    string
 	KV      storage.KvStorage
 	Cluster *testutils.MockCluster
+	PD      pd.Client
 	cleanup func()
 }
 
@@ -108,7 +111,15 @@ func NewEngine(kind string) (*Engine, error) {
 			return nil, err
 		}
 		kv := itikv.NewKvStoreWithStorage([]*tikv.KVStore{store})
-		return &Engine{Kind: kind, KV: kv, Cluster: cluster, cleanup: func() { kv.Close() }}, nil
+		return &Engine{Kind: kind, KV: kv, Cluster: cluster, PD: pdClient, cleanup: func() { kv.Close() }}, nil
+	case "tikv-regions":
+		// the same mock cluster; the driver splits it into several regions at run time (SplitAt)
+		e, err := NewEngine("tikv")
+		if err != nil {
+			return nil, err
+		}
+		e.Kind = kind
+		return e, nil
 	case "metrics", "metrics-memkv":
 		return &Engine{Kind: kind, KV: imetrics.NewKvStorage(imemkv.NewKvStorage(), Metrics())}, nil
 	case "metrics-badger":
@@ -136,7 +147,7 @@ type EngineParams struct {
 // Params returns the spec parameters of an engine kind.
 func Params(kind string) EngineParams {
 	switch kind {
-	case "tikv", "metrics-tikv":
+	case "tikv", "metrics-tikv", "tikv-regions":
 		return EngineParams{ConflictCarriesValue: false, NativeTTL: false}
 	}
 	return EngineParams{ConflictCarriesValue: true, NativeTTL: true}
@@ -366,4 +377,21 @@ func (e *Env) WaitCommitted(want uint64, timeout time.Duration) bool {
 // HasPrefix reports whether raw key k (by number) starts with the given raw prefix.
 func (e *Env) HasPrefix(k int, prefix string) bool {
 	return bytes.HasPrefix(e.Keys.Raw(k), []byte(prefix))
+}
+
+// SplitAt splits the region of the mock TiKV cluster that contains key at key (no-op for other engines and
+// when key already is a region border).
+func (e *Engine) SplitAt(key []byte) bool {
+	if e.Cluster == nil {
+		return false
+	}
+	// (the cluster keeps region borders in encoded form; the PD client finds the region of a raw key)
+	enc := codec.EncodeBytes(nil, key)
+	r, err := e.PD.GetRegion(context.Background(), enc)
+	if err != nil || r == nil || r.Meta == nil || bytes.Equal(r.Meta.StartKey, enc) {
+		return false
+	}
+	newRegion, newPeer := e.Cluster.AllocID(), e.Cluster.AllocID()
+	e.Cluster.Split(r.Meta.Id, newRegion, key, []uint64{newPeer}, newPeer)
+	return true
 }
